@@ -210,6 +210,27 @@ func init() {
 		if (derr1 == nil) != (derr3 == nil) || !reflect.DeepEqual(d1, d3) {
 			bad = append(bad, "DecodeBitmap-history-dependent")
 		}
+		// the same on a slightly DAMAGED bitmap, so that the error-correction path runs: decoding it
+		// twice, and a pristine copy of it, must give the same answer (whatever that answer is)
+		imgD := cloneBmp(img1)
+		{
+			b := imgD.Rect
+			cx, cy := b.Min.X+b.Dx()/2, b.Min.Y+b.Dy()/2
+			for k := 0; k < 3; k++ {
+				x, y := cx+k, cy-k%2
+				imgD.SetBinary(x, y, !imgD.BinaryAt(x, y))
+			}
+		}
+		imgDc := cloneBmp(imgD)
+		e1, eerr1 := ap.dec(imgD)
+		if !sameBmp(imgD, imgDc) {
+			bad = append(bad, "DecodeBitmap-altered-damaged-bitmap")
+		}
+		e2, eerr2 := ap.dec(imgD)
+		e3, eerr3 := ap.dec(imgDc)
+		if (eerr1 == nil) != (eerr2 == nil) || !reflect.DeepEqual(e1, e2) || (eerr1 == nil) != (eerr3 == nil) || !reflect.DeepEqual(e1, e3) {
+			bad = append(bad, "DecodeBitmap-of-damaged-symbol-history-dependent")
+		}
 		r1, err := ap.enc(q1)
 		if !reflect.DeepEqual(q1, qc) {
 			bad = append(bad, "Encode-altered-description")
